@@ -5,6 +5,7 @@
   wrap/unwrap inverse, extension mutators only touch their URL.
 -/
 import FP.Model.Wrappers
+import FP.Gen.Consts
 namespace FP.Props.C20
 open FP FP.Model FP.Gen.Schema
 
@@ -88,5 +89,14 @@ theorem appendInto_keeps (l es : List Ext) : (appendInto l es).take l.length = l
 example : toSnakeCase "Base64Binary" = "base64_binary" := by decide +kernel
 example : toSnakeCase "MedicinalProductUndesirableEffect" = "medicinal_product_undesirable_effect" := by decide +kernel
 example : extensionFieldName "String" = "string_value" := by decide +kernel
+
+open FP.Gen.Consts in
+/-- THE TYPE CONSTANTS NAME THEIR OWN TYPES: every exported `resource.<Name>` constant (regenerated from
+    consts.go) has the value "<Name>", that value is a registered resource type, and every registered
+    resource type has its constant — so creating a resource through a constant creates that type -/
+theorem every_constant_names_its_type :
+    typeConsts.all (fun p => p.1 == p.2) = true ∧
+    typeConsts.all (fun p => isValidResourceType p.2) = true ∧
+    resourceTypes.all (fun r => typeConsts.any (fun p => p.2 == r.name)) = true := by decide +kernel
 
 end FP.Props.C20
